@@ -166,10 +166,14 @@ def run(ctx):
                         continue       # mixing unrelated key types in one object-keyed tree is python's own TypeError
                     if role == "key" and f.kk == "O" and kindc == "float" and math.isnan(cv):
                         continue
-                    entries = (["setitem", "insert", "setdefault", "update-dict", "update-pairs", "ctor-dict"] if role == "value" else
+                    entries = (["setitem", "insert", "setdefault", "update-dict", "update-pairs", "ctor-dict", "update-tree", "ctor-tree"] if role == "value" else
                                ["setitem", "insert", "setdefault", "update-pairs", "ctor-pairs", "add", "set-ctor", "update-dict"])
+                    if f.kk not in "ILOUQ":           # no object-valued sibling family with this key type (fs)
+                        entries = [e for e in entries if e not in ("update-tree", "ctor-tree")]
                     if ctx.quick():
                         entries = rng.sample(entries, 3)
+                    if role == "value" and f.vk != "O" and f.kk in "ILOUQ" and rng.random() < 0.5 and "update-tree" not in entries and "ctor-tree" not in entries:
+                        entries.append(rng.choice(["update-tree", "ctor-tree"]))
                     for entry in entries:
                         kinds = {"insert": ["BTree"], "add": ["Set", "TreeSet"], "set-ctor": ["Set", "TreeSet"]}.get(entry, ["Bucket", "BTree"])
                         kind = rng.choice(kinds)
@@ -181,7 +185,7 @@ def run(ctx):
                         cls = f.cls(kind, impl)
                         setlike = kind in ("Set", "TreeSet")
                         # a third of the offers are the FIRST write into an empty container
-                        empty_start = entry not in ("ctor-dict", "ctor-pairs", "set-ctor") and rng.random() < 0.34
+                        empty_start = entry not in ("ctor-dict", "ctor-pairs", "set-ctor", "ctor-tree") and rng.random() < 0.34
                         try:
                             t = cls() if empty_start else (cls([k1, k2]) if setlike else cls({k1: v1, k2: v1}))
                         except Exception as e:  # noqa
@@ -202,6 +206,18 @@ def run(ctx):
                                 t.update({key: val})
                             elif entry == "update-pairs":
                                 t.update([key] if setlike else [(key, val)])
+                            elif entry in ("update-tree", "ctor-tree"):
+                                # the source is a CONTAINER of a family with the same key type and object values
+                                # (C or Python, whichever -- a fast path for "one of ours" must still convert the values)
+                                src_cls = fam(f.kk + "O").cls(rng.choice(["BTree", "Bucket"]), rng.choice([impl, impl, "C", "Py"]))
+                                src = src_cls()
+                                src[knew] = val
+                                if entry == "update-tree":
+                                    t.update(src)
+                                else:
+                                    src[k1] = v1
+                                    src[k2] = v1
+                                    t = cls(src)
                             elif entry == "ctor-dict":
                                 t = cls({k1: v1, k2: v1, key: val})
                             elif entry == "ctor-pairs":
@@ -227,7 +243,7 @@ def run(ctx):
                             nrej += 1
                             if exp[0] == "ok":
                                 bad = "rejects-representable"
-                            elif entry not in ("ctor-dict", "ctor-pairs", "set-ctor") and not all(same(a, b) if setlike else (same(a[0], b[0]) and same(a[1], b[1])) for a, b in zip(before, after)) or (entry not in ("ctor-dict", "ctor-pairs", "set-ctor") and len(before) != len(after)):
+                            elif entry not in ("ctor-dict", "ctor-pairs", "set-ctor", "ctor-tree") and not all(same(a, b) if setlike else (same(a[0], b[0]) and same(a[1], b[1])) for a, b in zip(before, after)) or (entry not in ("ctor-dict", "ctor-pairs", "set-ctor", "ctor-tree") and len(before) != len(after)):
                                 bad = "modified-although-rejected"
                         elif outcome == "accepted":
                             nacc += 1
